@@ -1139,9 +1139,9 @@ def t_hibyte_offset(facts, res, tier):
 # ----------------------------------------------------------------------------- pair rules that delete a load
 
 
-@rule("T-OPT-PAIR-FLAGS", floor=1,
-      text="a peephole rule of optimize() that deletes a load (the second instruction of a pair is LDA / LDX / LDY and remove_second or remove_both is "
-           "set) also requires the optimiser's flag knowledge to be that register's (`flags == FlagsState::A|X|Y`): the register may well hold the "
+@rule("T-OPT-PAIR-FLAGS", floor=2,
+      text="a peephole rule of optimize() that deletes a load or an instruction that leaves A as it is but sets its flags (the second instruction of a "
+           "pair is LDA / LDX / LDY, or ORA / AND / EOR / ADC / SBC - `ORA #0` - and remove_second or remove_both is set) also requires the optimiser's flag knowledge to be that register's (`flags == FlagsState::A|X|Y`): the register may well hold the "
            "value already (STA v; LDA v), but the load also sets N/Z, and the flags may have been changed since the register was written "
            "(`load(a); X = 3; store(v); if (v)` would branch on X)")
 def t_opt_pair_flags(facts, res, tier):
@@ -1154,7 +1154,7 @@ def t_opt_pair_flags(facts, res, tier):
         if not sets:
             continue
         c = _norm(node["cond"])
-        m = re.search(r"(\w+)\.mnemonic==AsmMnemonic::(LDA|LDX|LDY)", c)
+        m = re.search(r"(\w+)\.mnemonic==AsmMnemonic::(LDA|LDX|LDY|ORA|AND|EOR|ADC|SBC)", c)
         if not m:
             continue
         # which instruction of the pair is it?  the second one is what remove_second deletes
@@ -1164,7 +1164,7 @@ def t_opt_pair_flags(facts, res, tier):
         both = any(simple_name(x["l"]) == "remove_both" for x in sets)
         if not (second or both):
             continue
-        reg = m.group(2)[-1]
+        reg = m.group(2)[-1] if m.group(2).startswith("LD") else "A"   # the logic / arithmetic instructions set the flags of A
         n += 1
         m1 = re.search(r"(\w+)\.mnemonic==AsmMnemonic::(\w+)", c.replace(m.group(0), "", 1))
         key = "T-OPT-PAIR-FLAGS:%s+%s" % (m1.group(2) if m1 else "?", m.group(2))
